@@ -61,7 +61,13 @@ def deserialize_message(type_name: str, payload: Any) -> Message | None:
     # Remove metadata fields
     data.pop("message_id", None)
     data.pop("created_at", None)
-    data.pop("attempts", None)
+    carried_attempts = data.pop("attempts", None)
     data.pop("max_attempts", None)
 
-    return create_message_from_dict(type_name, data)
+    message = create_message_from_dict(type_name, data)
+    # A handler re-queues a copy of a message with an incremented attempt
+    # count (copy_with_attempts) to bound its retries; that count has to
+    # survive the trip through the queue or the bound is never reached.
+    if isinstance(carried_attempts, int) and carried_attempts > 0:
+        message.attempts = carried_attempts
+    return message
